@@ -47,7 +47,7 @@ Definition ev_ok (g : ghost) (e : event) : Prop :=
   | ETouch o op _ => In o (g_auth g) /\ (op = OpPickle -> c_pickle C = true)
   | EBox k o => In o (g_auth g) /\ k = s_key S o
   | EDecref k _ => tbl_find k (g_tbl g) <> None
-  | EVin v => exists payload, In v (fst (Vinegar.vload (c_rflags C) (s_env S) payload))
+  | EVin v => exists payload, In v (fst (Vinegar.vload Vinegar.LkGetattr (c_rflags C) (s_env S) payload))
   | _ => True
   end.
 Fixpoint wf (t : list event) : Prop :=
@@ -208,7 +208,7 @@ Qed.
 Lemma spec_load_exc (pre : state -> Prop) payload : spec pre (load_exc S C payload) (fun _ _ => True).
 Proof.
   intros s s' r I P E. unfold load_exc in E.
-  destruct (Vinegar.vload (c_rflags C) (s_env S) payload) as [eff rr] eqn:V.
+  destruct (Vinegar.vload Vinegar.LkGetattr (c_rflags C) (s_env S) payload) as [eff rr] eqn:V.
   assert (K : forall l s0, Inv s0 -> (forall v, In v l -> In v eff) ->
               Inv (fold_left (fun s e => add_ev s (EVin e)) l s0) /\ ext s0 (fold_left (fun s e => add_ev s (EVin e)) l s0)).
   { induction l as [|v l IHl]; intros s0 I0 Hl; cbn; [split; auto using ext_refl|].
@@ -882,7 +882,7 @@ Proof.
 Qed.
 Lemma q_load_exc payload : qspec (load_exc S C payload).
 Proof.
-  intros s s' r E. unfold load_exc in E. destruct (Vinegar.vload (c_rflags C) (s_env S) payload) as [eff rr].
+  intros s s' r E. unfold load_exc in E. destruct (Vinegar.vload Vinegar.LkGetattr (c_rflags C) (s_env S) payload) as [eff rr].
   destruct (q_fold EVin (fun _ => eq_refl) eff s) as [A B]. cbn zeta in A, B.
   assert (R : s' = fold_left (fun s e => add_ev s (EVin e)) eff s)
     by (destruct rr as [[| |c a sets st]| | |]; try (destruct (negb (iterable a) || existsb set_fails sets)); try destruct st; now injection E).
@@ -1196,17 +1196,18 @@ Qed.
 (* 3. pickling needs allow_pickle *)
 Theorem pickle_needs_switch w l t1 o ys t2 : tr (RUN w l) = t1 ++ ETouch o OpPickle ys :: t2 -> c_pickle C = true.
 Proof. intros E. pose proof (trace_event_ok _ _ _ _ _ E) as [_ H]. now apply H. Qed.
-(* 4. what an exception record can make vinegar.load do *)
+(* 4. what an exception record can make vinegar.load do (an import needs import_custom, or -- through a module-level
+      __getattr__ consulted by the class lookup, see props/C09.v 3a/3b -- instantiate_custom) *)
 Theorem vinegar_effects w l t1 v t2 : tr (RUN w l) = t1 ++ EVin v :: t2 ->
-  (forall m, v = Vinegar.EImport m -> Vinegar.import_custom (c_rflags C) = true) /\
+  (forall m, v = Vinegar.EImport m -> Vinegar.import_custom (c_rflags C) = true \/ Vinegar.inst_custom (c_rflags C) = true) /\
   (forall c, v <> Vinegar.EInit c) /\
   (forall c, v = Vinegar.ENew (Vinegar.Real c) -> Vinegar.inst_custom (c_rflags C) = false ->
              exists n ok, Vinegar.assoc n (Vinegar.builtins_ns (s_env S)) = Some (Vinegar.AExc c ok)).
 Proof.
   intros E. pose proof (trace_event_ok _ _ _ _ _ E) as [payload H]. repeat split.
-  - intros m ->. exact (proj1 (VinegarP.no_import_unless_allowed _ _ _ _ H)).
-  - intros c ->. exact (VinegarP.never_init _ _ _ _ H).
-  - intros c -> Hi. exact (VinegarP.new_only_builtin _ _ _ _ Hi H).
+  - intros m ->. destruct (VinegarP.import_only_two_ways _ _ _ _ _ H) as [[A _]|[_ A]]; [now left|now right].
+  - intros c ->. exact (VinegarP.never_init _ _ _ _ _ H).
+  - intros c -> Hi. exact (VinegarP.new_only_builtin _ _ _ _ _ Hi H).
 Qed.
 End Final.
 
